@@ -300,7 +300,10 @@ package nbs
 // written; the manifest update is conditional on the lock of the upstream contents the store last saw and carries
 // |current| as the new root; the cached upstream changes to the new contents only when the manifest accepted them.
 //@ func (*NomsBlockStore).updateManifest
-//@   property C02 C20
+//@   property C02 C20 C07
+//@   at call append: assert arg3:*memTable == nbs.memtable
+//@   at call errorIfDangling: assert (nbs.memtable == nil || verif_ghost.dMtCount == 0) && arg1:hash.Hash == current
+//@   at call Update: assert verif_ghost.dRootOK && verif_ghost.dRoot == current && (nbs.memtable == nil || verif_ghost.dMtCount == 0)
 //@   requires !verif_ghost.uCalled
 //@   ensures  old(nbs.upstream.root) != last ==> result != nil && !verif_ghost.uCalled
 //@   ensures  old(nbs.upstream.root) != last ==> nbs.upstream.root == old(nbs.upstream.root) && nbs.upstream.lock == old(nbs.upstream.lock)
@@ -312,12 +315,21 @@ package nbs
 //@ func (*NomsBlockStore).startConjoinIfRequired
 //@   trusted frame condition assumed from the body (conjoinOp / conjoinOpCond only)
 //@   modifies nbs.conjoinOp
+// errorIfDangling: accepts a root only if it is empty, the has-cache vouches for it, or the checker ran without error
+// and reported nothing absent; the has-cache learns the root only after such a check. The two ghost_set clauses are
+// event markers (which root the most recent call accepted), not assumptions about the body.
 //@ func (*NomsBlockStore).errorIfDangling
-//@   trusted frame condition assumed from the body (reads nbs.hasCache, calls the checker)
+//@   property C02 C07
 //@   modifies nothing
+//@   at call Add: assert verif_ghost.dChecked && verif_ghost.dAbsent == 0 && arg1:hash.Hash == root
+//@   ensures  result == nil ==> root.IsEmpty() || verif_ghost.dCacheHit || (verif_ghost.dChecked && verif_ghost.dAbsent == 0)
+//@   also_modifies verif_ghost.dCacheHit, verif_ghost.dChecked, verif_ghost.dAbsent
+//@   ghost_set verif_ghost.dRootOK = (result == nil)
+//@   ghost_set verif_ghost.dRoot = root
+// handlePossibleDanglingRefError: drops the memtable (on a dangling-reference error) and nothing else
 //@ func (*NomsBlockStore).handlePossibleDanglingRefError
-//@   trusted frame condition assumed from the body (logging only)
-//@   modifies nothing
+//@   property C02 C07
+//@   modifies nbs.memtable
 
 // the inter-process manifest lock (flock): held between a successful LockWithTimeout and Unlock
 //@ extern (*github.com/dolthub/fslock.Lock).LockWithTimeout as verif_x_fslock_LockWithTimeout
@@ -568,3 +580,101 @@ package nbs
 //@   ensures  len(tw.prefixes) == old(len(tw.prefixes)) + 1
 //@   ensures  tw.prefixes[len(tw.prefixes)-1].order == uint32(old(len(tw.prefixes))) && tw.prefixes[len(tw.prefixes)-1].addr == h
 //@   ensures  uint64(tw.prefixes[len(tw.prefixes)-1].size) == (tw.pos - old(tw.pos)) % 4294967296
+
+// ---- no dangling references are committed (C07)
+
+// the ref checker (hasMany over every table and the memtable): what is recorded is that it ran and did not fail
+//@ extern funcvalue:checker as verif_x_checker
+//@   modifies nothing
+//@   ghost_set verif_ghost.dChecked = (err == nil)
+
+//@ extern (github.com/dolthub/dolt/go/store/hash.HashSet).Size as verif_x_HashSet_Size
+//@   modifies nothing
+//@   ensures n >= 0
+//@   ghost_set verif_ghost.dAbsent = n
+
+//@ extern funcvalue:getAddrs/3 as verif_x_gatherAddrs
+//@   modifies nothing
+//@   ghost_set verif_ghost.dGathered = verif_ghost.dGathered + 1
+
+//@ func (*memTable).addChildRefs
+//@   property C07
+//@   trusted appends one pending ref per address (map iteration); marks the start of a check round
+//@   modifies mt.pendingRefs
+//@   ghost_set verif_ghost.dChildAdded = true
+//@   ghost_set verif_ghost.dChecked = false
+//@   ghost_set verif_ghost.dPersisted = false
+
+//@ extern (github.com/dolthub/dolt/go/store/nbs.tablePersister).Persist as verif_x_Persist
+//@   modifies nothing
+//@   ghost_set verif_ghost.dPersisted = (err == nil && gcb == gcBehavior_Continue)
+
+// tableSet.append: the memtable is persisted only after the child addresses of EVERY chunk in it were gathered and
+// added to its pending refs, the checker ran on them without error and reported nothing absent
+//@ func (*tableSet).append
+//@   property C07
+//@   at call addChildRefs: assert verif_ghost.dGathered == old(verif_ghost.dGathered) + len(mt.getChildAddrs)
+//@   at call checker: assert verif_ghost.dChildAdded && !verif_ghost.dPersisted
+//@   at call Add: assert verif_ghost.dPersisted
+//@   at call Persist: assert verif_ghost.dChildAdded && verif_ghost.dChecked && verif_ghost.dAbsent == 0 && arg3:*memTable == mt
+//@   ensures  result2 == nil && result1 == gcBehavior_Continue ==> verif_ghost.dPersisted && result0 != nil
+//@   ensures  verif_ghost.dPersisted ==> verif_ghost.dChecked && verif_ghost.dAbsent == 0
+//@   ensures  result2 != nil ==> !verif_ghost.dPersisted
+//@   also_modifies verif_ghost.dGathered, verif_ghost.dChildAdded, verif_ghost.dChecked, verif_ghost.dAbsent, verif_ghost.dPersisted, mt.pendingRefs
+//@   loop 1
+//@     invariant verif_ghost.dGathered == old(verif_ghost.dGathered) + verif_rangeidx()
+//@     invariant 0 <= verif_rangeidx() && verif_rangeidx() <= len(mt.getChildAddrs)
+
+// the has-cache ("these addresses are known to be present"): it may only learn an address that a successful check or
+// a successful flush vouches for
+//@ extern (*github.com/hashicorp/golang-lru/v2.TwoQueueCache[K, V]).Add as verif_x_hasCache_Add
+//@   modifies nothing
+//@ extern (*github.com/hashicorp/golang-lru/v2.TwoQueueCache[K, V]).Get as verif_x_hasCache_Get
+//@   modifies nothing
+//@   ghost_set verif_ghost.dCacheHit = ok
+
+// addPendingRefsToHasCache: only after the memtable those refs belong to was checked and persisted; only refs the
+// checker marked present
+//@ func (*NomsBlockStore).addPendingRefsToHasCache
+//@   property C07
+//@   requires verif_ghost.dPersisted
+//@   at call Add: assert e.has
+//@   modifies nothing
+
+//@ func (*memTable).addChunk
+//@   property C07
+//@   trusted map insert (Go maps are opaque to the engine); event marker: a chunk that was added awaits the registration of its child-address gatherer
+//@   modifies *mt
+//@   ensures result == chunkExists || result == chunkNotAdded || result == chunkAdded
+//@   ghost_set verif_ghost.dRegistered = verif_ghost.dRegistered && result != chunkAdded
+
+//@ func (*memTable).addGetChildRefs
+//@   property C07
+//@   trusted appends the gatherer; event marker
+//@   modifies mt.getChildAddrs
+//@   ghost_set verif_ghost.dRegistered = true
+
+//@ func (*NomsBlockStore).waitForGC
+//@   property C07
+//@   trusted blocks on the GC condition variable: other goroutines run, so everything reachable from the store may change
+//@   modifies *nbs
+
+// NomsBlockStore.addChunk: the chunk and the gatherer of its child addresses go to the memtable the store holds at
+// that moment; a full memtable is flushed through tableSet.append (checked, then persisted) before the has-cache
+// learns its refs; on a successful return the gatherer of every chunk this call added has been registered
+//@ func (*NomsBlockStore).addChunk
+//@   property C07
+//@   requires verif_ghost.dRegistered
+//@   at call addChunk: assert arg0:*memTable == nbs.memtable && nbs.memtable != nil
+//@   at call addGetChildRefs: assert arg0:*memTable == nbs.memtable && addChunkRes == chunkAdded
+//@   at call append: assert arg3:*memTable == nbs.memtable
+//@   ensures  result1 == nil ==> verif_ghost.dRegistered
+//@   also_modifies verif_ghost.dRegistered, verif_ghost.dGathered, verif_ghost.dChildAdded, verif_ghost.dChecked, verif_ghost.dAbsent, verif_ghost.dPersisted
+//@   loop 1
+//@     invariant verif_ghost.dRegistered
+
+// memTable.count: event marker remembering the most recent count (used to state "the memtable was flushed or empty")
+//@ func (*memTable).count
+//@   property C07
+//@   modifies nothing
+//@   ghost_set verif_ghost.dMtCount = result
